@@ -62,8 +62,13 @@ def norm_text(t):
         t = _strip_wrapped(t, "val(", "")
     # "is Some": one predicate name, whether it was read by a pattern, is_some() or `?`
     t = re.sub(r"(?<![A-Za-z_])SOME\(", "P(", t)
+    # one spelling for the length of a place: `x.len()` is `len(x)`
+    t = _LEN_OF.sub(r"len(\1)", t)
     t = _slice_len(t)
     return _flatten_phi(t)
+
+
+_LEN_OF = re.compile(r"(?<![\w.)\]~@$])((?:~\d+|@\d+|\$\d+|~?[A-Za-z_]\w*)(?:\.[A-Za-z_]\w*|\.\d+)*)\.len\(\)")
 
 
 def _slice_len(t):
@@ -1591,12 +1596,6 @@ def u7(rep, F, flt=None):
                                 "%s now sets %s to `%s`; the reference sets it to `%s`"
                                 % (path, definite[0], definite[1][:200], definite[2][:200]), b["file"], b["line"]))
                 continue
-            if (not a or not o) and any(decide.opaque(x_, vocab) for x_ in UNKNOWN_EXITS.get(path, [])):
-                # entries exist on one side only and the function hands back the result of a callee the reference
-                # does not know: what that callee delivers is not visible here
-                r["undecided"] = r.get("undecided", 0) + 1
-                rep.notes.append("U7: %s: delivers the result of a helper unknown to the reference: undecided" % path)
-                continue
             pruning = [x for x in a if re.search(r"\.(retain|truncate|clear|remove|pop|drain|dedup|swap_remove)\(", x.partition(" => ")[2])]
             if not o and pruning:
                 # everything the reference does is still done, and in addition the collection being delivered is
@@ -1604,6 +1603,12 @@ def u7(rep, F, flt=None):
                 rep.add(Finding("U7", path, "store-changed",
                                 "%s additionally prunes what it delivers: `%s`" % (path, pruning[0].partition(" => ")[2][:200]),
                                 b["file"], b["line"]))
+                continue
+            if (not a or not o) and any(decide.opaque(x_, vocab) for x_ in UNKNOWN_EXITS.get(path, [])):
+                # entries exist on one side only and the function hands back the result of a callee the reference
+                # does not know: what that callee delivers is not visible here
+                r["undecided"] = r.get("undecided", 0) + 1
+                rep.notes.append("U7: %s: delivers the result of a helper unknown to the reference: undecided" % path)
                 continue
             # one value piece on each side: compare them token-wise; what they share may contain unresolved
             # names, what distinguishes them must not
@@ -1622,7 +1627,7 @@ def u7(rep, F, flt=None):
             # and, after a conditional re-assignment, a definitely different X on another
             if len(va_) == 1 and len(vo_) == 1 and "phi(" not in vo_[0] and \
                     not any(decide.opaque(x, vocab) for x in rest):
-                ex = decide.phi_expansions(va_[0])
+                ex = decide.phi_expansions(va_[0]) or ("if(" not in vo_[0] and decide.if_expansions(va_[0])) or None
                 same = [alt for x, alt in (ex or []) if x == vo_[0]]
                 if same:
                     # the re-assigned value usually mentions the first one: compare with it as one token
@@ -1637,6 +1642,27 @@ def u7(rep, F, flt=None):
                                                                                 " ".join(db_)[:120] or "the first value"),
                                         b["file"], b["line"]))
                         continue
+            # pieces with unresolved parts on both sides: when each pairs with a piece of the other side from which it
+            # differs in a small, fully resolved edit only (the unresolved context is literally the same), the edit
+            # is a definite difference (`items.len() >= 1` -> `>= 2` on a collection the function builds)
+            oa_ = [x for x in (pa - po) if decide.opaque(x, vocab) and not x.startswith("T:")]
+            oo_ = [x for x in (po - pa) if decide.opaque(x, vocab) and not x.startswith("T:")]
+            clear_rest = [x for x in (pa ^ po) if not decide.opaque(x, vocab) and not x.startswith("T:")]
+            if oa_ and len(oa_) == len(oo_) <= 4 and not clear_rest:
+                import difflib
+                pairs_, pool_ = [], list(oo_)
+                for x in oa_:
+                    y = max(pool_, key=lambda z: difflib.SequenceMatcher(a=x, b=z, autojunk=False).quick_ratio())
+                    pool_.remove(y)
+                    pairs_.append((x, y))
+                if all(decide.texts_definitely_differ(x, y, vocab) for x, y in pairs_):
+                    da_, db_ = decide.differing_tokens(pairs_[0][0], pairs_[0][1])
+                    rep.add(Finding("U7", path, "store-changed",
+                                    "%s delivers its value under a different condition / from a different expression "
+                                    "than the reference: the current code has `%s` where the reference has `%s` (in "
+                                    "`%s`)" % (path, " ".join(da_)[:120], " ".join(db_)[:120], pairs_[0][1][:160]),
+                                    b["file"], b["line"]))
+                    continue
             if any(decide.opaque(x, vocab) for x in (pa ^ po)):
                 r["undecided"] = r.get("undecided", 0) + 1
                 rep.notes.append("U7: %s: the delivered value differs from the reference only in terms the extractor "
@@ -1649,7 +1675,7 @@ def u7(rep, F, flt=None):
                 # each pair differs in a small, fully resolved part (an edit); a re-arranged expression is undecided
                 import difflib
                 aa, oo = list(a), list(o)
-                definite = len(aa) == len(oo) and len(aa) <= 3
+                definite = len(aa) == len(oo) and len(aa) <= 8
                 while definite and aa:
                     x = aa.pop()
                     y = max(oo, key=lambda z: difflib.SequenceMatcher(a=x, b=z, autojunk=False).quick_ratio())
